@@ -945,3 +945,97 @@ CHECKS["C06"].update({
     "technique": ("Lean 4 proof (all 26 rules: model silent <=> declarative clause, memoised overlap search included; verdict of the chain = conjunction "
                   "of the rules alone; attribution; invariance under six transformations) + full-chain model correspondence + labelled-violation / metamorphic oracle"),
 })
+
+
+# ---------------------------------------------------------------------------------------------------------------
+# State after the second builder wave (lexer / parser / spans, continued): narrative of C01 and C02 as in the tree.
+# ---------------------------------------------------------------------------------------------------------------
+CHECKS["C01"].update({
+    "text": ("MODELLED: Lex.lean (Lexer.__next__ and every _read_*, positions and error positions included; tables RE-EXTRACTED from lexer.py on every "
+             "run), Utf8.lean / ParseBytes.lean (Lexer.__init__ on a bytes source: strict UTF-8 decoding, InvalidCharacter at the character offset of the "
+             "first undecodable sequence, fix B8), Parse.lean / ParseExec / ParseTS / ParseDoc (every parse_* of lang/parser.py, many / any_ / "
+             "delimited_list, the three flags, the three entry points; keyword and location tables re-extracted from parser.py), ParseText.lean "
+             "(Parser.__init__ + entry point = lexer then parser, with the error of either), ParseLazy.lean (the LAZY token window of Parser: tokens are "
+             "pulled on demand, so an earlier grammatical error hides a later lexical one), StringUtils.lean (index_to_loc, highlight_location). "
+             "SPECIFICATION: Spec/Lexical.lean (June-2018 lexical grammar as recognisers of complete lexemes + the tiling relation Tiles / IgnRun / "
+             "Follow), Spec/LexicalReadings.lean (the clauses of Follow that are READINGS of June 2018, each under its own name) and Spec/Grammar.lean "
+             "(concrete-syntax views, WF, Matches). PROVED, lexer: lex_sound and lex_render (= lexAll_ok_iff: a text is accepted exactly when it is tiled "
+             "by ignored runs and complete lexemes obeying maximal munch and the named look-ahead clauses, and the tokens returned are the tiling's; ALL "
+             "token kinds), lex_ignored_invariant, lex_fuel_sufficient, render_total / index_to_loc_total_iff, the table-to-spec theorems; bytes: "
+             "decode_encode, decode_ok_iff (the decoder accepts EXACTLY the encodings of texts of scalar values), parse_bytes_eq_text (parse(text.encode()) "
+             "IS parse(text), all entry points and flags), parse_bytes_accepts_iff, decode_error_in_range, parse_bytes_total. Parser: parse_sound_document, parse_complete_document, parseDocument_accepts_iff, matched_document_unique (all 8 flag "
+             "combinations; parseValue_* / parseType_* for the other two entry points). TEXT level: parse_text_accepts_iff / parse_text_result, "
+             "parse_value_text_result, parse_type_text_result; lazy window: lazy_ok_iff (acceptance and the tree never depend on the window), "
+             "parse_text_ignored_invariant (+ value / type: two texts tiled by lexemes with the same kinds and values - any ignored runs - are both "
+             "accepted or both rejected and the trees are equal up to positions), lazy_eq_eager_of_lexable, parse_text_lazy_error_in_range (every error the lazy parser reports is within the text except L6 on an OpenEscape "
+             "text), lazy_prefix_never_ok, lazy_differs (`} \"\\`: eager reports len+1, lazy the `}` at 0). ERROR CLAUSE: parse_error_in_range, parse_text_error_in_range_partial, "
+             "parse_text_render_total, and the EXACT class of the one excluded case (L6), stated on the text with the lexical specification only: "
+             "error_position_iff_open_escape (a lexer error is at len+1 EXACTLY WHEN the text ends inside an open quoted string with a truncated escape: "
+             "OpenEscape = complete tokens and ignored runs, a quote, complete string characters, `\\` or `\\u` + at most 3 hex digits), open_escape_error, "
+             "error_in_range_iff, parse_text_error_in_range_iff (lexer and parser errors, all entry points), openEscape_endsInEscape + "
+             "endsInEscape_not_openEscape (the earlier EndsInEscape is a strict over-approximation: `a\\`); refuted with witnesses: error_in_range_refuted "
+             "(`\"\\`), viable_prefix_refuted (`extend scalar A`). SPEC-EDITION READINGS isolated as named clauses (follow_int_clauses / "
+             "follow_float_clauses / follow_string_clause: Follow is exactly maximal munch plus them), each with a theorem that the code implements it and "
+             "a refutation of the literal June-2018 reading: LA1 number look-ahead (number_lookahead_pinned / june2018_glued_number_refuted), LA3 three "
+             "quotes always open a block string (triple_quote_pinned, four_quotes_rejected / june2018_adjacent_strings_refuted), LA4 no digit after the "
+             "integer part 0 (leading_zero_pinned / june2018_split_number_refuted); LA2 (greedy optional blocks) is the `nla` item of Spec/Grammar. "
+             "CORRESPONDENCE: text -> tokens -> AST (whole to_dict() incl. loc) for str and UTF-8 bytes on grammar-directed documents rendered with "
+             "random ignored runs, token / character mutants, every prefix, the repo fixtures, CR/LF/CRLF variants, bounded-exhaustive token strings x 8 "
+             "flag combinations x 3 entry points; UTF-8 decoding (model vs Lexer.__init__ vs bytes.decode: text, reject, character offset). DIRECT "
+             "ORACLES: error contract (only GraphQLSyntaxError, 0 <= position <= len, str()/highlighted/to_dict() succeed), a position beyond the end "
+             "only for texts of the OpenEscape class (independent text-level scanner), spec recognisers on single lexemes, ignored-run invariance, "
+             "bytes = str, invalid UTF-8 rejected, named probes for LA1-LA4 and deep nesting."),
+    "note": ("Trusted: Lean kernel; table extraction; generators; the Python canonicaliser of Node.to_dict(). Only exercised (not modelled): the "
+             "U+FFFD-replaced text carried by the error for invalid UTF-8, the exception classes and messages, CPython's recursion limit (named probe, finding P1). Error positions of rejected texts are proved in "
+             "range but not compared one by one (for texts with a lexical error the evidence COUNTS how often the reported position is the lazy / the "
+             "eager model's: coverage.lazy_window; never a failure). NOT PROVED, kept visible: ParseFuelSufficientStatement (the parser MODEL never reports its own fuel exhaustion on a "
+             "rejected input; proved for the lexer, and for accepted inputs: parse_fuel_sufficient_partial; the verdict and every position statement "
+             "are independent of it; exercised: position and class of every parser rejection are compared with the real parser, "
+             "corr:model-fuel-exhausted reports the artefact, coverage.parser_model_rejections_without_fuel_artefact counts). 'Never any other "
+             "exception' holds in the model by its types (Except SynErr): for the code it is the correspondence outcome internal:<Class>. "
+             "Residuals: L6 (len+1, pinned by test_lexer.py; rendering repaired; exact class proved), LA1-LA4 (readings "
+             "of the June-2018 grammar pinned by the suite; graphql-js agrees), P1."),
+    "technique": "Lean 4 proof (lexer soundness+completeness, grammar acceptance iff at text level, exact error-position class, UTF-8 round trip, tables) + extracted tables + text/token/AST correspondence",
+})
+CHECKS["C02"].update({
+    "text": ("MODELLED: the C01 lexer / parser model with loc (every node), BlockString.lean (parse_block_string), escape decoding in readStringBody "
+             "(paired surrogate escapes after fix U1). SPECIFICATION: Spec/BlockStringSpec.lean (BlockStringValue() transcribed), Spec/Lexical.lean "
+             "(stringCharacters, escape table), the span clause inside Item.check / Spans (loc = start of first token, end of last token of the node's own "
+             "segment). PROVED: block_string_spec (model = BlockStringValue, all inputs), escape_spec (sound + complete against StringCharacter*), "
+             "number_verbatim; span_spec_document / _value / _type (every node's loc is the span of its own token segment, siblings consecutive, children "
+             "nested; all flags); noloc_erasure, noloc_acceptance (no_location erases positions and nothing else). RE-PARSE AT CHARACTER LEVEL: lex_slice "
+             "(the characters between two tokens lex to the tokens in between, moved down); span_reparse_value / span_reparse_type (parse_value / "
+             "parse_type entry points, every nested node); for DOCUMENTS span_reparse_node (every node of every kind: the spanned text lexes and derives "
+             "exactly the node at offset 0), span_reparse_value_all / span_reparse_type_all (every value / type node of every definition is what "
+             "parse_value / parse_type returns for its text), span_reparse_definition (the text of a definition parses to the one-definition document), and "
+             "THROUGH THE parse ENTRY POINT for the node kinds without one of their own, the spanned text wrapped in the minimal context (LF = line feed): "
+             "span_reparse_selection_set (the text itself is the query shorthand), span_reparse_selection (`{ <text>LF}`: fields, fragment spreads, "
+             "inline fragments), span_reparse_directive (`{ a <text>LF}`), span_reparse_argument (`{ a(<text>LF)}`), span_reparse_object_field (`{ <text>LF}` through parse_value), span_reparse_variable_definition (`query(<text>LF){a}`), "
+             "span_reparse_field_definition (`type A {<text>LF}`), span_reparse_input_value_definition (`input A {<text>LF}`), "
+             "span_reparse_enum_value_definition (`enum A {<text>LF}`), span_reparse_description "
+             "(`<text>LF scalar A`, flags with allow_type_system): parse accepts the wrapped text under the same flags and returns the document that "
+             "contains exactly the node, moved by the offset of the context; closed forms without side hypothesis for executable documents: "
+             "span_reparse_selection_all / _selection_set_all / _directive_all / _argument_all / _variable_definition_all over Definition.sels / ssets / "
+             "dirs / args / vdefs (every such "
+             "node at any depth), and for type-system definitions and extensions span_reparse_directive_ts / span_reparse_argument_ts / "
+             "span_reparse_description_all over Definition.tdirs / descs (directives and descriptions of the definition and of its field definitions, "
+             "argument definitions, enum values, input fields) and span_reparse_field_definition_all / _input_value_definition_all / "
+             "_enum_value_definition_all over Definition.fdefs / ivdefs / evdefs. OperationTypeDefinition (`schema {<text>LF}`: "
+             "span_reparse_operation_type_definition) and Name (`{ <text>LF}`, the field of that name: span_reparse_name) are covered in the hypothesis "
+             "form (sub-node of a definition's view); with them EVERY node kind of the AST has a re-parse theorem through a public entry point. CORRESPONDENCE: decoded values and every node's loc (through the C01 driver), parse_block_string directly; DIRECT "
+             "ORACLES: source[loc] re-parses to an equal node with the Parser method that produced it (incl. trailing children) AND, for these node "
+             "kinds, through the public parse() inside the same minimal context; block / quoted lexemes decode to the spec value, numbers and names "
+             "verbatim, node.source slices."),
+    "note": ("Trusted: Lean kernel; generators; the lexer positions feeding the spans are covered by lex_sound (C01). Only exercised: Parser.parse_* "
+             "methods called directly on a slice (the first oracle), the `source` attribute. Residual: P5 (the Document span runs from <SOF> to <EOF>, i.e. includes surrounding ignored text; "
+             "pinned by 15 tests; modelled as is). Repaired earlier: B1, B2, L4, P4, U1."),
+    "technique": "Lean 4 proof (block strings, escapes, spans for all documents, no_location erasure, character-level re-parse of every node, re-parse through parse() in minimal context) + decode/span correspondence + re-parse oracles",
+})
+
+# audit round (F2, F8): C03 for trees parsed WITH positions
+_add("C03", "print_erase (the printer ignores source positions: print(d) = print(erase d), every node kind, Lemmas/PrintErase.lean) and, with C02's "
+            "noloc_erasure, the round trip for trees parsed WITH positions under ANY flags: print_parse_located (the printed tree re-parses to a tree equal "
+            "to the original UP TO SOURCE POSITIONS, modulo the member descriptions of R4), print_parse_located_exact (a located tree without member descriptions round-trips up to positions: "
+            "the statement as written outside R4), print_parse_located_loss, print_parse_located_iff (exact exclusion), print_stable_located.",
+     "print_total only says the output ends with a newline: 'printing never raises' / 'is deterministic' hold for the MODEL by construction (a total "
+     "Lean function without error branch) and are tied to the code only by the correspondence and the direct oracle (stated in its doc comment).")
